@@ -16,7 +16,7 @@ S=true; cargo test --workspace --no-fail-fast --offline >$WT/suite.log 2>&1 || S
 # demo: default = integration test file; MIRI=1 env to run under miri; RELEASE=1 for --release
 DEMO=demo_$M; cp $SRC/demo.rs tests/$DEMO.rs
 MODE=""; [ -n "$RELEASE" ] && MODE="--release"
-if [ -n "$MIRI" ]; then CMD="cargo +nightly miri test --offline --test $DEMO"; export MIRIFLAGS="-Zmiri-disable-isolation -Zmiri-ignore-leaks"; else CMD="cargo test --offline $MODE --test $DEMO"; fi
+if [ -n "$USE_MIRI" ]; then CMD="cargo +nightly miri test --offline --test $DEMO"; export MIRIFLAGS="-Zmiri-disable-isolation -Zmiri-ignore-leaks"; else CMD="cargo test --offline $MODE --test $DEMO"; fi
 F=false; timeout 900 $CMD >$WT/demo_mut.log 2>&1 || F=true
 git apply -R $SRC/patch.diff
 O=true; timeout 900 $CMD >$WT/demo_orig.log 2>&1 || O=false
